@@ -663,9 +663,9 @@ Proof.
   intros Hb fn k r Hd.
   assert (Hp : exists p, In p (sig_of e fn) /\ pdefault p = Some r).
   { destruct k as [i|n]; cbn [default_of] in Hd.
-    - destruct (vps (sig_of e fn)) as [s|]; [| discriminate].
-      destruct ((0 <=? i)%Z && (i <? Z.of_nat s)%Z); [| discriminate].
+    - destruct (0 <=? i)%Z; [| discriminate].
       destruct (nth_error (sig_of e fn) (Z.to_nat i)) as [p|] eqn:Hn; [| discriminate].
+      destruct (is_prefix_kind (pk p)); [| discriminate].
       exists p. split; [eapply nth_error_In; exact Hn | exact Hd].
     - destruct (find_param (sig_of e fn) n) as [p|] eqn:Hf; [| discriminate].
       exists p. split; [eapply find_param_in; exact Hf | exact Hd]. }
